@@ -109,6 +109,9 @@ func play(sc Script, out *bufio.Writer) {
 		case "GoCtx":
 			slots[st.J] = slot{kind: "C", c: src.c.Ctx(context.WithValue(context.Background(), prog.CtxKey{}, st.A))}
 			destOf[st.J] = destOf[st.I]
+		case "CtxReset":
+			slots[st.J] = slot{kind: "C", c: src.c.Reset()}
+			destOf[st.J] = destOf[st.I]
 		case "Logger":
 			slots[st.J] = slot{kind: "L", l: src.c.Logger()}
 			destOf[st.J] = destOf[st.I]
